@@ -433,7 +433,7 @@ pub fn run(tier: Tier) -> i32 {
     let ctx = Ctx::new("C20", tier, "model_checking");
     // the whole thorough product costs ~10 s: both tiers run it
     let quick = false;
-    let _ = ctx.quick();
+    let thorough = !ctx.quick();
     ctx.set_rule("wire part: every protocol name both backends serve (25519 x {ChaChaPoly, AESGCM} x {SHA256, SHA512}; BLAKE2 / XChaChaPoly / P256 names through the fallback) x all 9 assignments of {Default, Fallback(Ring, Default), Fallback(Default, Ring)} to the two endpoints, session = handshake + transport traffic + synchronised rekeys + more traffic, stateful and stateless, with comfortably large buffers and (every 4th name) with output buffers of exactly the needed size plus {0,1,8,15,16,17} bytes: identical bytes to the all-default session and every step Ok. built-in part: DefaultResolver and RingResolver answer Some exactly for their documented primitives and what they hand out is the named primitive (name + one known answer against the reference). fallback part: complete truth table of FallbackResolver over tagged stub resolvers (16 x 16 availability masks, nesting depth 2 on either side): Some iff a member provides the primitive, and the first member's; plus every sequence of three queries of one kind on the same instance over per-choice availability masks (the answer must not depend on earlier queries)");
     fallback_table(&ctx);
     builtin_table(&ctx);
@@ -456,7 +456,7 @@ pub fn run(tier: Tier) -> i32 {
         let modes: Vec<Mode> = if quick { vec![if k % 2 == 0 { Mode::TT } else { Mode::SS }] } else { vec![Mode::TT, Mode::SS] };
         let mut runs: Vec<(Mode, Option<(isize, isize)>)> = modes.iter().map(|m| (*m, None)).collect();
         // exactly sized and slightly larger buffers: every 4th name, five slack pairs
-        if k % 4 == 0 {
+        if thorough || k % 4 == 0 {
             for sl in [(0isize, 0isize), (1, 1), (8, 15), (16, 16), (17, 5)] {
                 runs.push((if (k / 4) % 2 == 0 { Mode::TT } else { Mode::SS }, Some(sl)));
             }
